@@ -98,20 +98,29 @@ package updog
 // ---------------------------------------------------------------------------------------------------------------
 // Semantics of expressions (C01) and of cache keys (C03)
 
-//@ pure sem(x Expression, idx *Index) iset reads ExprEqual.Column, ExprEqual.Value, ExprNot.Expr, ExprAnd.Exprs, ExprOr.Exprs, []Expression, Index.values, Index.nextRowID, preloadedColGetter.values, map[uint64]*roaring.Bitmap, dom[uint64]*roaring.Bitmap, roaring.Bitmap.view, onDemandColGetter.db, bbolt.DB.committed
-//@ pure semOfKey(k uint64, idx *Index) iset reads ExprEqual.Column, ExprEqual.Value, ExprNot.Expr, ExprAnd.Exprs, ExprOr.Exprs, []Expression, Index.values, Index.nextRowID, preloadedColGetter.values, map[uint64]*roaring.Bitmap, dom[uint64]*roaring.Bitmap, roaring.Bitmap.view, onDemandColGetter.db, bbolt.DB.committed
+// The meaning of an expression is defined over a column function (value index -> set of rows) and the number of
+// rows, so that the same definition serves the index (columns = what the getter holds) and the writer (columns = what
+// AddRow recorded): equal column functions and row counts give equal meanings by congruence, no induction needed.
+//@ sort colfun (Array Int (Array Int Bool))
+//@ pure semG(x Expression, cols colfun, n int) iset reads ExprEqual.Column, ExprEqual.Value, ExprNot.Expr, ExprAnd.Exprs, ExprOr.Exprs, []Expression
+//@ pure semKG(k uint64, cols colfun, n int) iset reads ExprEqual.Column, ExprEqual.Value, ExprNot.Expr, ExprAnd.Exprs, ExprOr.Exprs, []Expression
 //@ pure keySpec(x Expression) uint64 reads ExprEqual.Column, ExprEqual.Value, ExprNot.Expr, ExprAnd.Exprs, ExprOr.Exprs, []Expression
-//@ axiom sem_eq: forall x Expression, idx *Index :: { sem(x, idx) } typeof(x) == ptrtag(ExprEqual) ==>
-//@    sem(x, idx) == gcol(idx.values, idxOf(x.(*ExprEqual).Column, x.(*ExprEqual).Value))
-//@ axiom sem_not: forall x Expression, idx *Index :: { sem(x, idx) } typeof(x) == ptrtag(ExprNot) ==>
-//@    sem(x, idx) == diff(univ(idx.nextRowID), sem(x.(*ExprNot).Expr, idx))
-//@ axiom sem_and: forall x Expression, idx *Index, v int :: { v in sem(x, idx) } typeof(x) == ptrtag(ExprAnd) ==>
-//@    ((v in sem(x, idx)) <==> (len(x.(*ExprAnd).Exprs) >= 1 && (forall j idx(x.(*ExprAnd).Exprs) :: (v in sem(x.(*ExprAnd).Exprs[j], idx)))))
-//@ axiom sem_or: forall x Expression, idx *Index, v int :: { v in sem(x, idx) } typeof(x) == ptrtag(ExprOr) ==>
-//@    ((v in sem(x, idx)) <==> (exists j idx(x.(*ExprOr).Exprs) :: (v in sem(x.(*ExprOr).Exprs[j], idx))))
+//@ axiom sem_eq: forall x Expression, cols colfun, n int :: { semG(x, cols, n) } typeof(x) == ptrtag(ExprEqual) ==>
+//@    semG(x, cols, n) == cols[idxOf(x.(*ExprEqual).Column, x.(*ExprEqual).Value)]
+//@ axiom sem_not: forall x Expression, cols colfun, n int :: { semG(x, cols, n) } typeof(x) == ptrtag(ExprNot) ==>
+//@    semG(x, cols, n) == diff(univ(n), semG(x.(*ExprNot).Expr, cols, n))
+//@ axiom sem_and: forall x Expression, cols colfun, n int, v int :: { v in semG(x, cols, n) } typeof(x) == ptrtag(ExprAnd) ==>
+//@    ((v in semG(x, cols, n)) <==> (len(x.(*ExprAnd).Exprs) >= 1 && (forall j idx(x.(*ExprAnd).Exprs) :: (v in semG(x.(*ExprAnd).Exprs[j], cols, n)))))
+//@ axiom sem_or: forall x Expression, cols colfun, n int, v int :: { v in semG(x, cols, n) } typeof(x) == ptrtag(ExprOr) ==>
+//@    ((v in semG(x, cols, n)) <==> (exists j idx(x.(*ExprOr).Exprs) :: (v in semG(x.(*ExprOr).Exprs[j], cols, n))))
 // cache keys identify the meaning of an expression: this is the statement that keys are structural and that the hash
 // function has no collisions (the property's own proviso); it is an assumption of C03
-//@ axiom key_determines_meaning: forall x Expression, idx *Index :: { semOfKey(keySpec(x), idx) } wf(x) ==> semOfKey(keySpec(x), idx) == sem(x, idx)
+//@ axiom key_determines_meaning: forall x Expression, cols colfun, n int :: { semKG(keySpec(x), cols, n) } wf(x) ==> semKG(keySpec(x), cols, n) == semG(x, cols, n)
+// the index's instance: its columns are what its getter holds
+//@ pure gcols(g colGetter) colfun reads preloadedColGetter.values, map[uint64]*roaring.Bitmap, dom[uint64]*roaring.Bitmap, roaring.Bitmap.view, onDemandColGetter.db, bbolt.DB.committed
+//@ axiom gcols_def: forall g colGetter, k int :: { gcols(g)[k] } gcols(g)[k] == ((0 <= k && k <= 18446744073709551615) ? gcol(g, k) : iempty())
+//@ pure sem(x Expression, idx *Index) iset := semG(x, gcols(idx.values), idx.nextRowID)
+//@ pure semOfKey(k uint64, idx *Index) iset := semKG(k, gcols(idx.values), idx.nextRowID)
 
 //@ pure cachedBM(c Cache, k uint64) *roaring.Bitmap := (typeof(c) == ptrtag(LRUCache)) ? ((k in c.(*LRUCache).entries) ? item(c.(*LRUCache).entries[k]).bm : nil) : nil
 //@ pred CacheSem(idx *Index) := forall k uint64 :: cachedBM(idx.cache, k) != nil ==>
@@ -180,7 +189,10 @@ package updog
 //@ pure validBM(b bytes) bool
 //@ pure kV(k uint64) key
 //@ pure be64byte(v uint64, i int) int
-//@ axiom kV_def: forall k uint64 :: { kV(k) } klen(kV(k)) == 9 && kat(kV(k), 0) == 86 && (forall p int :: { kat(kV(k), p) } 1 <= p && p < 9 ==> kat(kV(k), p) == be64byte(k, p - 1))
+//@ axiom kV_def: forall k uint64 :: { kV(k) } klen(kV(k)) == 9 && kat(kV(k), 0) == 86 && kat(kV(k), 1) == be64byte(k, 0)
+//@ axiom kV_bytes: forall k uint64, p int :: { kat(kV(k), p) } 1 <= p && p < 9 ==> kat(kV(k), p) == be64byte(k, p - 1)
+//@ axiom kV_bytes_rev: forall k uint64, i int :: { kV(k), be64byte(k, i) } 0 <= i && i < 8 ==> kat(kV(k), i + 1) == be64byte(k, i)
+//@ lemma kV_injective: forall a uint64, b uint64 :: { kV(a), kV(b) } kV(a) == kV(b) ==> a == b
 //@ pure gcol(g colGetter, k uint64) iset reads preloadedColGetter.values, map[uint64]*roaring.Bitmap, dom[uint64]*roaring.Bitmap, roaring.Bitmap.view, onDemandColGetter.db, bbolt.DB.committed
 //@ axiom gcol_preloaded: forall g colGetter, k uint64 :: { gcol(g, k) } typeof(g) == ptrtag(preloadedColGetter) ==>
 //@    gcol(g, k) == ((k in g.(*preloadedColGetter).values) ? g.(*preloadedColGetter).values[k].view : iempty())
@@ -385,6 +397,7 @@ package updog
 //@   ensures [C16] read_only: db.committed == old(db.committed) && db.ncommits == old(db.ncommits) && !db.wopen
 //@   ensures [C15,C06] accepts_only_complete_indexes: err == nil ==> shas(db.committed) && sin(db.committed, kS()) && sin(db.committed, kI()) && blen(sval(db.committed, kI())) == 4
 //@   ensures [C01,C05] row_counter_is_read_back: err == nil ==> idx.nextRowID == be32dec(sval(db.committed, kI()))
+//@   ensures [C01] on_demand_getter_reads_the_file: err == nil && len(opts) == 0 ==> (forall k uint64 :: gcol(idx.values, k) == stored(db.committed, k))
 //@   ensures [C01,C03,C14] index_invariant_established: err == nil && FileConsistent(db.committed) ==> IdxInv(idx) && idx.mtx.held == 0 && GetterFrom(idx.values, db)
 //@   loop 1
 //@     invariant idx != nil && !(idx in old($alloc)) && idx.db == db && DBOpen(db) && !db.wopen && idx.metrics != nil && CacheValid(idx.cache) && SchemaOK(idx.schema)
@@ -392,6 +405,7 @@ package updog
 //@     invariant shas(db.committed) && sin(db.committed, kS()) && sin(db.committed, kI()) && blen(sval(db.committed, kI())) == 4
 //@     invariant idx.nextRowID == be32dec(sval(db.committed, kI()))
 //@     invariant idx.values == nil || (GetterValid(idx.values) && GetterFrom(idx.values, db))
+//@     invariant len(opts) == 0 ==> idx.values == nil
 //@     invariant (forall k uint64 :: cachedBM(idx.cache, k) == nil) && idx.mtx.held == 0
 
 //@ func [C15] (*Index).Close(idx) (err)
@@ -450,7 +464,7 @@ package updog
 //@ trusted func (*IndexWriter).optimize(idx)
 //@   requires idx != nil
 
-//@ func [C06,C16,C05] (*IndexWriter).WriteToBoltDatabase(idx, db) (err)
+//@ func [C06,C16,C05,C01] (*IndexWriter).WriteToBoltDatabase(idx, db) (err)
 //@   requires WriterInv(idx) && idx.mtx.held == 0 && DBOpen(db) && !db.wopen
 //@   requires [C06] output_has_no_index_yet: !sin(db.committed, kS())
 //@   modifies db.committed; db.commits; db.ncommits; db.wopen
@@ -459,6 +473,9 @@ package updog
 //@   ensures [C06,C05] complete_at_the_end: err == nil ==> db.ncommits > old(db.ncommits) && db.commits[db.ncommits - 1] == db.committed
 //@        && shas(db.committed) && sin(db.committed, kS()) && sin(db.committed, kI()) && blen(sval(db.committed, kI())) == 4
 //@   ensures [C05,C01] row_counter_is_number_of_AddRow_calls: err == nil ==> be32dec(sval(db.committed, kI())) == idx.nextRowID
+//@   requires [C01] output_holds_no_bitmaps_yet: forall h uint64 :: !sin(db.committed, kV(h))
+//@   ensures [C01,C05] every_bitmap_is_stored_under_its_value_index: err == nil ==> (forall h uint64 :: stored(db.committed, h) == wcol(idx, h))
+//@   ensures [C01,C05] writer_state_unchanged: (forall h uint64 :: wcol(idx, h) == old(wcol(idx, h))) && idx.nextRowID == old(idx.nextRowID)
 //@   ensures [C06] no_transaction_left_open: !db.wopen && !db.closed && idx.mtx.held == 0
 //@   loop 1
 //@     invariant tx != nil && tx.gdb == db && tx.writable && !tx.done && db.wopen && !db.closed && bucket != nil && bucket.gtx == tx
@@ -466,6 +483,8 @@ package updog
 //@     invariant WriterInv(idx) && idx.mtx.held == 2 && db.ncommits >= old(db.ncommits) && shas(tx.work)
 //@     invariant !sin(tx.work, kS())
 //@     invariant forall j int :: old(db.ncommits) <= j && j < db.ncommits ==> !sin(db.commits[j], kS())
+//@     invariant forall h uint64 :: (h in $visited) ==> (h in idx.values) && sin(tx.work, kV(h)) && validBM(sval(tx.work, kV(h))) && decodeBM(sval(tx.work, kV(h))) == idx.values[h].view
+//@     invariant forall h uint64 :: !(h in $visited) ==> !sin(tx.work, kV(h))
 
 //@ func [C16,C06,C05] (*IndexWriter).Flush(idx) (err)
 //@   requires WriterInv(idx) && idx.mtx.held == 0 && !flocked(fs, idx.filename)
@@ -604,3 +623,14 @@ package updog
 //@     invariant cache.entries != nil && !(cache.entries in old($alloc)) && (forall k uint64 :: !(k in cache.entries))
 //@     invariant cache.lruList != nil && !(cache.lruList in old($alloc)) && ListInv(cache.lruList) && cache.lruList.members == rempty()
 //@     invariant cache.metrics != nil && CountersOK(cache.metrics)
+
+// ---------------------------------------------------------------------------------------------------------------
+// C01 end to end (in-memory writer, on-demand index): the client function of zz_client_verif.go
+//@ pure wcols(w *IndexWriter) colfun reads IndexWriter.values, map[uint64]*roaring.Bitmap, dom[uint64]*roaring.Bitmap, roaring.Bitmap.view
+//@ axiom wcols_def: forall w *IndexWriter, h int :: { wcols(w)[h] } wcols(w)[h] == ((0 <= h && h <= 18446744073709551615) ? wcol(w, h) : iempty())
+//@ func [C01] verifClientCount(w, db, e) (count, ok)
+//@   requires WriterInv(w) && WriterSem(w) && w.mtx.held == 0 && DBOpen(db) && !db.wopen
+//@   requires output_is_a_new_database: !sin(db.committed, kS()) && (forall h uint64 :: !sin(db.committed, kV(h)))
+//@   modifies *
+//@   ensures count_is_the_meaning_over_the_rows_the_writer_recorded: ok ==> count == card(semG(e, old(wcols(w)), old(w.nextRowID)))
+//@   assert after Execute: index_columns_are_writer_columns: gcols(idx.values) == old(wcols(w))
